@@ -236,7 +236,7 @@ def _outputs_through_contractions(spec, vals):
 @st.composite
 def cases(draw):
     cfg = progen.GenCfg(
-        dtypes=("int32", "int64", "float64", "complex128"),
+        dtypes=("int32", "int64", "float64", "complex128", "bool"),
         p_nan=0.0, p_zero=0.05, p_complex=0.15, max_len=4, max_size=256,
         max_outputs=2, only_sink_outputs=True, outputs_may_be_inputs=False,
         phases=((0, 4, GROUPS_TREE), (1, 2, GROUPS_CONTRACT),
